@@ -374,6 +374,41 @@ func runHistory(c *Ctx, caseIdx int, rng *rand.Rand, o *HistOpts) *HistRun {
 			hr.issue("C02", sig, fmt.Sprintf("block %d: total value %s, expected %s (genesis %s; off by %s)", h, got, hr.Total, hr.Total0, off))
 			hr.Total = got // re-synchronise: report once per block where it becomes observable
 		}
+		// in-memory state that execution depends on must agree with what was committed (C15, C10)
+		if act, err := r.Active(); err == nil && act != nil {
+			if act.Params == nil || *act.Params != obs.Params {
+				hr.issue("C15", "active-params-differ-from-committed", fmt.Sprintf("block %d: parameters in force in memory %+v, governance ledger says %+v", h, act.Params, obs.Params))
+			}
+			want := topN(pre, &pre.Params)
+			if h == 1 {
+				want = topN(m.Hist[0], &m.Hist[0].Params)
+			}
+			got := map[string]int64{}
+			for _, v := range act.LastValidators {
+				got[v.Addr] = v.Power
+			}
+			okv := len(got) == len(want)
+			minIn := int64(-1)
+			for _, d := range want {
+				if minIn < 0 || d.Total < minIn {
+					minIn = d.Total
+				}
+			}
+			for a, p := range got {
+				d := pre.Delegatees[a]
+				if h == 1 {
+					d = m.Hist[0].Delegatees[a]
+				}
+				// ties at the cut may be resolved either way: members must be eligible, carry their bonded power, and not rank below the cut
+				if d == nil || d.Total != p || d.Total < minIn || d.Self < minPowerOf(&pre.Params) {
+					okv = false
+				}
+			}
+			if !okv {
+				hr.issue("C10", "in-memory-validators-differ", fmt.Sprintf("block %d: the application believes it last reported %v, the staking ledger of the previous block yields %s", h, got, rankStr(want)))
+			}
+			c.Count("in-memory-state-checks", 1)
+		}
 		// structural stake invariants (C11) on the observed state
 		hr.checkStakeInvariants(obs, h)
 		m.Hist[h] = obs
